@@ -78,6 +78,14 @@ CLAIMED = {
               "authenticated control connection checking for side effects and leaked bytes after every case (10.9k cases)."),
         note=TB + "Dispatch behind the gate is abstract (Honest: never touches the password or promotes a connection; tied to the source by regenerated writer tables); statistics counters are not modelled; the Unicode upper-casing normaliser is exact only for 'equals an ASCII name' (validated dynamically).",
         ref="DESIGN.md section 5 C17"),
+    "C07": dict(
+        text=("Proof: queued commands have no effect; EXEC = left fold of KS.step over the queue with slot i holding command i's reply (= sending the same commands back to back); "
+              "EXEC is ONE transition in every schedule of any number of connections (store after an EXEC event = fold of that connection's queue over the store before it; every reply is "
+              "computed at an event boundary); runtime errors stay in their slot (from KS failure atomicity); DISCARD/disconnect are erasures (everyone else's replies and the final dataset are "
+              "as if the connection had sent nothing); state is per connection and cleared by EXEC/DISCARD; reachable-state invariant; table theorems tie the processing order to server.rs - "
+              "40 Lean theorems; twin-server runs (MULTI..EXEC vs direct), interleaved connections predicted by the model, and a 5 s transfer workload with constant-sum readers over TCP."),
+        note=TB + "Atomicity rests on the single-command-thread structure of Server::run (re-checked by the translator's coarse test, supported by the workload); WATCH's outcome is an input here (C08); sweeper/BGSAVE threads are not in this model.",
+        ref="DESIGN.md section 5 C07"),
     "C04": dict(
         text=("Proof: the skip-list invariant (level 0 strictly sorted by (score, member), every level a sublist of the one below, key index = level 0, length) for every "
               "operation sequence and every tower height, refinement of insert/remove to the sorted-list Spec, engine-level refinement for ZADD/ZINCRBY/ZREM/ZPOP histories, "
